@@ -122,8 +122,10 @@ func (s *grpcServer) BatchUpdateBlobs(ctx context.Context,
 			}
 		}
 
+		// Pass the declared size, so that a blob whose length differs
+		// from its digest's SizeBytes is rejected instead of acknowledged.
 		err = s.cache.Put(ctx, cache.CAS, req.Digest.Hash,
-			int64(len(req.Data)), bytes.NewReader(req.Data))
+			req.Digest.SizeBytes, bytes.NewReader(req.Data))
 		if err != nil && err != io.EOF {
 			s.logErrorPrintf(err, "%s %s %s", errorPrefix, req.Digest.Hash, err)
 			rr.Status.Code = int32(gRPCErrCode(err, codes.Internal))
